@@ -123,7 +123,7 @@ func holdsData(root *core.Node) bool {
 	var walk func(n *core.Node)
 	walk = func(n *core.Node) {
 		if n.Dir {
-			for _, e := range n.Ents {
+			for _, e := range n.Ents.Nodes() {
 				walk(e)
 			}
 			return
